@@ -77,3 +77,51 @@ Proof.
   destruct (set_cc_fn_lift _ P cc Hc) as (A & _ & C). cbv zeta in A, C. rewrite E in A. split; [exact C | exact A].
 Qed.
 End Shapes.
+
+(* ------------------------------------------------------------------ CreatePacketWithPayload *)
+Lemma create_pwp_shape z pay :
+  Create.Create z [Create.WithHasPayloadFlag; Create.WithContinuousAF; Create.OptSetPayload pay] =
+  71 :: pb1 z :: pb2 z :: 16 :: blit_nat (tail_flags 127) 0 pay.
+Proof. reflexivity. Qed.
+
+Lemma firstn_firstn_app_skipn (pay r : bytes) : length r = 184%nat ->
+  firstn (length pay) (firstn (length r) pay ++ skipn (length pay) r) = firstn 184 pay.
+Proof.
+  intros LR. rewrite LR. destruct (Nat.le_gt_cases (length pay) 184) as [LE|GT].
+  - rewrite (firstn_all2 pay) by lia. rewrite firstn_app, firstn_all, Nat.sub_diag. cbn [firstn]. apply app_nil_r.
+  - rewrite skipn_all2 by lia. rewrite app_nil_r. rewrite firstn_all2; [reflexivity|]. rewrite firstn_length. lia.
+Qed.
+
+Lemma create_pwp_spec v cc pay : v < 8192 -> cc < 16 -> is_bytes pay ->
+  let p := Create.CreatePacketWithPayload (Z.of_N v) cc pay in
+  is_pkt p /\ Iso.hdr_of p = Iso.mkHdr 71 0 0 0 v 0 1 cc /\
+  exists body, Payload_fn p = Ok body /\ takeN (len pay) body = takeN 184 pay.
+Proof.
+  intros Hv Hc PB. cbv zeta. unfold Create.CreatePacketWithPayload. rewrite create_pwp_shape.
+  destruct (pb_in_range v Hv) as [E1 E2]. rewrite E1, E2.
+  set (B := blit_nat (tail_flags 127) 0 pay).
+  assert (length B = 184%nat) as LB by (unfold B; rewrite blit_nat_length; reflexivity).
+  assert (is_bytes B) as BB.
+  { unfold B. apply blit_nat_bytes; [|exact PB]. unfold tail_flags.
+    do 2 (constructor; [unfold is_byte; lia|]). apply repeatN_bytes. unfold is_byte; lia. }
+  set (p0 := 71 :: v / 256 :: v mod 256 :: 16 :: B).
+  assert (is_pkt p0) as P0.
+  { split; [unfold p0; cbn [length]; lia|]. unfold p0. do 4 (constructor; [unfold is_byte; lia|]). exact BB. }
+  assert (Iso.hdr_of p0 = Iso.mkHdr 71 0 0 0 v 0 1 0) as H0.
+  { unfold Iso.hdr_of, Iso.hdr_of_bytes, nthN, p0. cbn [N.to_nat nth].
+    change (Pos.to_nat 1) with 1%nat. change (Pos.to_nat 2) with 2%nat. change (Pos.to_nat 3) with 3%nat. cbn [nth].
+    f_equal; lia. }
+  destruct (set_cc_fn_lift p0 P0 cc Hc) as (A & F & C). cbv zeta in A, F, C. rewrite H0 in A.
+  split; [exact C|]. split; [exact A|].
+  (* the payload accessor *)
+  assert (SetCC p0 cc = [71; v / 256; v mod 256; N.lor (N.land 16 240) cc] ++ B) as SE.
+  { unfold SetCC. rewrite (copy_packet_id p0 P0). reflexivity. }
+  exists B. split.
+  - destruct (byte3_facts _ C) as (_ & _ & _ & _ & CP & _ & CA & _).
+    unfold Payload_fn, payloadStart_fn. rewrite CP, CA. unfold Iso.has_payload, Iso.has_af. rewrite A.
+    unfold Iso.with_cc. cbn [Iso.afc]. change (1 mod 2 =? 1) with true. change (1 / 2 =? 1) with false. cbn [negb].
+    change (PacketSize <? 4) with false. cbv iota. rewrite SE. apply slice_app_r; [reflexivity|].
+    unfold PacketSize, len. rewrite LB. reflexivity.
+  - unfold takeN, B. rewrite blit_nat_0. unfold len. rewrite Nat2N.id.
+    change (N.to_nat 184) with 184%nat. apply firstn_firstn_app_skipn. reflexivity.
+Qed.
